@@ -146,9 +146,10 @@ impl Check for C01Stream {
     fn strategy(&self, _tier: Tier) -> BoxedStrategy<Case01> {
         // astral characters hit the known finding astral-escape-5hex; keep them to a minority of streams
         prop_oneof![
-            6 => arb_stream(CharSet::Bmp, 40),
-            3 => arb_stream(CharSet::Bmp, 6),
-            1 => arb_stream(CharSet::Full, 8),
+            60 => arb_stream(CharSet::Bmp, 40),
+            30 => arb_stream(CharSet::Bmp, 6),
+            10 => arb_stream(CharSet::Full, 8),
+            3 => arb_long_stream(),
         ]
         .prop_map(|s| Case01 { input: s.bytes, touching: s.touching })
         .boxed()
@@ -173,6 +174,8 @@ impl Check for C01Stream {
             .class_if(exp_vals.iter().any(has_boundary_int), "int_beyond_2^53")
             .class_if(depth >= 32, "depth>=32")
             .class_if(exp.is_empty(), "empty_stream")
+            .class_if(input.len() > 8192, "longer_than_8KiB")
+            .class_if(exp.len() >= 128, "128_or_more_values")
             .obs(json!({"values": exp.len(), "stdout": esc_trunc(&out.stdout, 300)}));
         if !out.res.is_ok() {
             return CaseResult::Fail(format!("jawk failed on a conforming stream: {}", out.res.short()));
